@@ -13,6 +13,9 @@ ASSUMPTIONS = {
     "A-alias": "the manager thread's tables (processes, pending, running, management lock) are the very objects of the executor its weak reference points to (set once in _ExecutorManagerThread.__init__)",
     "A-pids": "keys of the process table are the pids of started, un-reaped children; the OS gives no new child the pid of an un-reaped one",
     "A-psutil": "psutil's memory probe of the worker's own pid does not raise",
+    "A-tracker-stable": "the resource tracker does not die between two consecutive liveness probes of one process launch",
+    "A-spawn": "queues do not send objects while a process object is being pickled for launch",
+    "A-fds": "descriptors recorded in a Popen's keep list are open descriptors of this process",
     "A-finalize": "util.Finalize callbacks run when the object is collected or at interpreter exit",
 }
 
